@@ -709,8 +709,15 @@ class WaveShareNmea2000Gateway(AsyncIOClient):
             start = self._buffer.find(b"\xaa\x55")
 
             if start == -1:
-                # If start marker not found, wait for more data
+                # If start marker not found, wait for more data. Noise is dropped so the buffer
+                # cannot grow without bound; a trailing 0xaa may be the first half of a marker.
+                keep = 1 if self._buffer.endswith(b"\xaa") else 0
+                del self._buffer[:len(self._buffer) - keep]
                 break
+            if start > 0:
+                # Noise in front of the marker is never needed again
+                del self._buffer[:start]
+                start = 0
             if start + 20 > len(self._buffer):
                 # Not enough data for a full packet yet
                 break
